@@ -43,11 +43,11 @@ func (p *ConfigProp[T]) Overwrite(value T) {
 	p.onChange.Fire(value)
 }
 
-// Stages the new value, keeping the old. The change is not committed until CommitStaged is called.
+// Stages the new value, keeping the old. The change is not committed until CommitStaged is called,
+// and nobody is notified until NotifyCommitted is called: an update that is rejected later on
+// (verification, persisting) must not have been seen by any component.
 func (p *ConfigProp[T]) Stage(newValue T) {
 	commit, _ := p.value.Load()
-
-	oldVal := commit.ref().Original()
 
 	// Copy the old Overwritable to keep any command-line overwrites.
 	overwritable := commit.Value()
@@ -55,12 +55,6 @@ func (p *ConfigProp[T]) Stage(newValue T) {
 	commit.Stage(overwritable)
 
 	p.value.Store(commit)
-
-	if p.requiresRestart && (oldVal != newValue) {
-		setRestartNeeded()
-	}
-
-	p.onChange.Fire(newValue)
 }
 
 func (p *ConfigProp[T]) CommitStaged() {
@@ -69,11 +63,38 @@ func (p *ConfigProp[T]) CommitStaged() {
 	p.value.Store(commit)
 }
 
+// Drops a staged value that was never committed.
+func (p *ConfigProp[T]) DiscardStaged() {
+	commit, _ := p.value.Load()
+	commit.Uncommit()
+	p.value.Store(commit)
+}
+
+// Undoes the last CommitStaged.
+func (p *ConfigProp[T]) RollbackCommit() {
+	commit, _ := p.value.Load()
+	commit.Rollback()
+	p.value.Store(commit)
+}
+
+// Tells the subscribers about the value committed last. They receive the effective value,
+// i.e. a command-line overwrite stays in force.
+func (p *ConfigProp[T]) NotifyCommitted() {
+	commit, _ := p.value.Load()
+
+	if previous, ok := commit.Previous(); ok && p.requiresRestart && previous.Original() != commit.ref().Original() {
+		setRestartNeeded()
+	}
+
+	p.onChange.Fire(commit.ref().Get())
+}
+
 func (p *ConfigProp[T]) String() string {
 	return fmt.Sprintf("%v", p.value)
 }
 
-func (p ConfigProp[T]) MarshalJSON() ([]byte, error) {
+// Pointer receiver: a ConfigProp holds its subscriber list (with a mutex) and must not be copied.
+func (p *ConfigProp[T]) MarshalJSON() ([]byte, error) {
 	return json.Marshal(p.value)
 }
 
